@@ -18,7 +18,7 @@ bounds.  The states reaching every statement are recorded so rules can evaluate
 index expressions at a site and ask the affine engine for entailment.
 """
 import ast
-from .affine import Lin, ge, le, gt, lt, entails, find_counter_model
+from .affine import Lin, ge, le, gt, lt, entails, find_counter_model, cone, _infeasible
 from .front import dotted, const_value, unparse, AnalysisError, assigned_names
 
 SHAPE_PRESERVING_METHODS = {
@@ -80,8 +80,9 @@ class State:
 
 
 class AbsInt:
-    def __init__(self, fi, ranks=None, nonneg_params=(), int_params=None, int_arrays=(), null_preserving=()):
+    def __init__(self, fi, ranks=None, nonneg_params=(), int_params=None, int_arrays=(), null_preserving=(), assume=()):
         self.fi = fi
+        self._assume0 = list(assume)
         self.null_preserving = set(null_preserving)   # callee names with f(None) is None and f(x) is not None otherwise
         self.ranks = dict(ranks or {})
         self.int_arrays = set(int_arrays)
@@ -98,6 +99,8 @@ class AbsInt:
                 from .front import split_top
                 self.ranks[p] = len(split_top(sh))
         self.int_params = ip
+        self.imprecise_loops = set()
+        self.axioms = []      # definitional constraints of derived atoms (floor-div / mod), universally valid
         self.at = {}          # id(stmt) -> [State]  (state *before* the statement)
         self.after = {}       # id(stmt) -> [State]  (states after the statement, normal completion)
         self.returns = []     # (Return node, State)
@@ -116,6 +119,8 @@ class AbsInt:
                 pass
         for p in nonneg_params:
             s.add(ge(Lin.atom(p), 0))
+        for c in self._assume0:
+            s.add(c)
         self.init = s
         self.final = self.block(fi.node.body, [s])
 
@@ -189,6 +194,9 @@ class AbsInt:
                                 continue
                             q = Lin.atom("(%r)//%d" % (la, k))
                             ax = [ge(la, q.scale(k)), le(la, q.scale(k) + (k - 1))]
+                            for x_ in ax:
+                                if x_ not in self.axioms:
+                                    self.axioms.append(x_)
                             if isinstance(e.op, ast.FloorDiv):
                                 out.append((q, ca + cb + ax))
                             else:
@@ -356,11 +364,17 @@ class AbsInt:
                             f.append(pre + [ge(la, lb), le(la, lb)])
                             t.append(pre + [lt(la, lb)]); t.append(pre + [gt(la, lb)])
                 return t, f
+        if isinstance(test, ast.Name) and self.is_int_var(st, test.id):
+            a = self.lin_alts(st, test)
+            if a is not None and len(a) == 1:
+                v = a[0][0]
+                return [[ge(v, 1)], [le(v, -1)]], [[ge(v, 0), le(v, 0)]]
         return [[]], [[]]
 
     def assume(self, st, conj):
         """apply a conjunction to a copy of st; None if trivially infeasible"""
         s = st.copy()
+        added = []
         for c in conj:
             if isinstance(c, tuple) and c[0] == "null":
                 _, v, val = c
@@ -375,6 +389,11 @@ class AbsInt:
                     continue
                 if c not in s.G:
                     s.G.append(c)
+                    added.append(c)
+        # prune branches whose new constraints contradict what is already known (cone of influence only)
+        for c in added:
+            if _infeasible(cone(s.G, c) + [c]):
+                return None
         return s
 
     # ------------------------------------------------------------ statements
@@ -433,6 +452,8 @@ class AbsInt:
                 if c not in s.G:
                     s.G.append(c)
             if not ok:
+                continue
+            if len(alts) > 1 and any(_infeasible(cone(s.G, c) + [c]) for c in cons if not c.is_const()):
                 continue
             s.env[name] = l
             s.null[name] = "notnone"
@@ -898,18 +919,22 @@ class AbsInt:
             lo = Lin(0)
             hi = None
             step = 1
+            his, los = [], []
             if len(args) == 1:
-                hi = self.lin(st, args[0])
+                his = self._bound_list(st, args[0], "min", s)
+                hi = his[0] if len(his) == 1 else None
             elif len(args) >= 2:
-                lo = self.lin(st, args[0])
-                hi = self.lin(st, args[1])
+                los = self._bound_list(st, args[0], "max", s)
+                his = self._bound_list(st, args[1], "min", s)
+                lo = los[0] if len(los) == 1 else None
+                hi = his[0] if len(his) == 1 else None
                 if len(args) == 3:
                     step = const_value(args[2])
             if isinstance(step, int) and step > 0:
-                if lo is not None:
-                    st.add(ge(a, lo))
-                if hi is not None:
-                    st.add(lt(a, hi))
+                for l_ in (los or ([lo] if lo is not None else [])):
+                    st.add(ge(a, l_))
+                for h_ in his:
+                    st.add(lt(a, h_))
             elif isinstance(step, int) and step < 0:
                 if lo is not None:
                     st.add(le(a, lo))
@@ -924,6 +949,21 @@ class AbsInt:
                             st.add(ge(a, lo))
                         if hi is not None:
                             st.add(lt(a, hi))
+
+    def _bound_list(self, st, e, combiner, loop):
+        """loop bound as a conjunction: range(min(a, b)) gives v < a and v < b (dually max for lower bounds);
+        a bound that needs a case split is recorded as imprecise"""
+        if isinstance(e, ast.Call) and dotted(e.func) == combiner and len(e.args) == 2 and not e.keywords:
+            out = []
+            for x in e.args:
+                out += self._bound_list(st, x, combiner, loop)
+            return out
+        alts = self.lin_alts(st, e)
+        if alts is not None and len(alts) == 1:
+            st.add(*alts[0][1])
+            return [alts[0][0]]
+        self.imprecise_loops.add(id(loop))
+        return []
 
     # ------------------------------------------------------------ queries
     def states_at(self, node):
